@@ -1,11 +1,15 @@
 package main
 
 import (
+	"bytes"
 	"context"
+	"crypto/x509"
 	"encoding/json"
 	"fmt"
 	"net/http/httptest"
 	"net/url"
+	"os"
+	"os/exec"
 	"strconv"
 	"strings"
 	"time"
@@ -25,6 +29,9 @@ import (
 
 type fineCase struct {
 	Name string
+	// Cold: every execution runs in a process of its own, so that state the code under test builds once per
+	// process (lazily initialised package variables) is in its initial state in every explored schedule
+	Cold bool
 	// Run builds a fresh application, does the sequential prelude, runs the threads under the schedule and
 	// judges the outcome.
 	Run func(prefix []int) vsched.RunResult
@@ -78,6 +85,9 @@ func exploreFine(env *Env, rep *Report, prop string) int {
 		}
 		_ = i
 		curScenario = fc.Name
+		if fc.Cold {
+			fc.Run = coldRunner(prop, fc.Name)
+		}
 		a, b := fc.Run(nil), fc.Run(nil)
 		if a.Outcome != b.Outcome || len(a.X.Decisions) != len(b.X.Decisions) {
 			infra("%s %s is not deterministic under replay: %q/%d vs %q/%d", prop, fc.Name, a.Outcome, len(a.X.Decisions), b.Outcome, len(b.X.Decisions))
@@ -126,6 +136,9 @@ func replayFine(env *Env, rep *Report, prop string) bool {
 					prefix = append(prefix, int(f))
 				}
 			}
+		}
+		if fc.Cold {
+			fc.Run = coldRunner(prop, fc.Name)
 		}
 		r := fc.Run(prefix)
 		fmt.Println("outcome:", r.Outcome)
@@ -384,7 +397,9 @@ func init() {
 	}
 	fineCases["C12"] = func() []fineCase { return []fineCase{fineLogins("C12", "cookie"), fineLogins("C12", "file")} }
 	fineCases["C04"] = func() []fineCase { return []fineCase{fineDownloads("C04", false)} }
-	fineCases["C19"] = func() []fineCase { return []fineCase{fineDownloads("C19", false), fineDownloads("C19", true)} }
+	fineCases["C19"] = func() []fineCase {
+		return []fineCase{fineDownloads("C19", false), fineDownloads("C19", true), fineFirstDownloads("C19")}
+	}
 	fineCases["C15"] = func() []fineCase {
 		var out []fineCase
 		for _, sm := range []bool{false, true} {
@@ -394,4 +409,101 @@ func init() {
 		}
 		return out
 	}
+}
+
+// ---------------------------------------------------------------------------
+// cold-start executions: one process per execution
+
+type coldResult struct {
+	Outcome    string
+	Violations []vsched.Violation
+	Decisions  []vsched.Decision
+	Steps      int
+	Abort      string
+}
+
+var coldKeyFile string
+
+func coldRunner(prop, name string) func(prefix []int) vsched.RunResult {
+	if coldKeyFile == "" {
+		coldKeyFile = fmt.Sprintf("%s/idp-key-%d.der", scratch(), os.Getpid())
+		os.WriteFile(coldKeyFile, x509.MarshalPKCS1PrivateKey(InstallIdP().Key), 0o600)
+	}
+	return func(prefix []int) vsched.RunResult {
+		pj, _ := json.Marshal(prefix)
+		cmd := exec.Command(os.Args[0], "-coldrun", prop+"|"+name+"|"+string(pj))
+		cmd.Env = append(os.Environ(), "VERIF_IDP_KEY="+coldKeyFile, "GOMAXPROCS=1")
+		out, err := cmd.Output()
+		var cr coldResult
+		if i := bytes.LastIndex(out, []byte("COLDRESULT ")); i >= 0 {
+			err = json.Unmarshal(out[i+len("COLDRESULT "):], &cr)
+		} else if err == nil {
+			err = fmt.Errorf("no result")
+		}
+		if err != nil {
+			infra("cold-start execution of %s %s (prefix %v) failed: %v: %s", prop, name, prefix, err, tail(string(out), 300))
+		}
+		return vsched.RunResult{X: &vsched.Exec{Decisions: cr.Decisions, Steps: cr.Steps, Abort: cr.Abort}, Outcome: cr.Outcome, Violations: cr.Violations}
+	}
+}
+
+// coldChild runs one execution and prints its record (child mode of the worker).
+func coldChild(arg string) {
+	f := strings.SplitN(arg, "|", 3)
+	if len(f) != 3 {
+		os.Exit(2)
+	}
+	var prefix []int
+	json.Unmarshal([]byte(f[2]), &prefix)
+	mk := fineCases[f[0]]
+	if mk == nil {
+		os.Exit(2)
+	}
+	for _, fc := range mk() {
+		if fc.Name == f[1] {
+			r := fc.Run(prefix)
+			b, _ := json.Marshal(coldResult{r.Outcome, r.Violations, r.X.Decisions, r.X.Steps, r.X.Abort})
+			fmt.Printf("COLDRESULT %s\n", b)
+			os.Exit(0)
+		}
+	}
+	os.Exit(2)
+}
+
+// fineFirstDownloads: the first two downloads a gateway process ever serves arrive at the same time.
+func fineFirstDownloads(prop string) fineCase {
+	name := "first-two-downloads-of-the-process-at-once"
+	return fineCase{Name: name, Cold: true, Run: func(prefix []int) vsched.RunResult {
+		vclock.Reset()
+		app := NewWebApp(WebCfg{Store: "cookie", HostSelection: "roundrobin", Hosts: []string{"{{ preferred_username }}-pc.example:3389"}, VerifyClientIP: true})
+		users := []string{"alice", "bob"}
+		var bs []*Browser
+		for i, u := range users {
+			bs = append(bs, fineLogin(app, u, fmt.Sprintf("10.0.0.%d:40000", i+1)))
+		}
+		files := make([]string, 2)
+		get := func(i int) func() {
+			return func() {
+				r := bs[i].Do(app, "GET", "/connect")
+				files[i] = r.Body.String()
+				if r.Code != 200 {
+					files[i] = fmt.Sprintf("status %d %s", r.Code, r.Body.String())
+				}
+			}
+		}
+		x := fineThreads(prefix, get(0), get(1))
+		v := finePanics(prop, name, x)
+		good := 0
+		for i, u := range users {
+			// what the same session gets afterwards, alone
+			ref := fileSummary(bs[i].Do(app, "GET", "/connect").Body.String())
+			if got := fileSummary(files[i]); got != ref {
+				v = append(v, vsched.Violation{Sig: prop + "/file-differs-from-the-one-the-same-session-gets-alone/" + name, Detail: fmt.Sprintf("session of %s, first download of the process (next to another first download):\n%s\nlater, alone:\n%s", u, got, ref)})
+				continue
+			}
+			good++
+		}
+		x.Finish()
+		return vsched.RunResult{X: x, Outcome: fmt.Sprintf("good=%d", good), Violations: v}
+	}}
 }
